@@ -254,6 +254,8 @@ def run(chk):
             continue
         st = ' '.join((m or 'x X none').split()[1:3])
         mstat['synth ' + st] = mstat.get('synth ' + st, 0) + 1
+        if ' tie=1' in (m or ''):
+            mstat['synth with an exact tie'] = mstat.get('synth with an exact tie', 0) + 1
         if st != 'X ok':
             ndis += 1
             chk.tie_break('correspondence:positioning', 'Model/PosModel.v and Slot::finalise/positionSlots disagree on a hand-built forest: %s' % (m or '')[:400], c[:600])
@@ -261,8 +263,15 @@ def run(chk):
         f = c.split()
         classes.add(('synth', f[2], f[3], min(len(f) - 5, 8), sum(1 for q in f[5:] if not q.startswith('-1,')) > 0, bad is None))
         if bad:
-            chk.violation('c15:synth:%s' % bad.split(':')[0].split(' ', 2)[-1][:30], 'hand-built forest, font vs font = NULL: %s' % bad, dict(cases=[c], got=[l[:2500]]))
+            # where the exact (design-unit) computation compares two EQUAL quantities, single-precision rounding of the scaled operands decides
+            # the branch with a font and the whole cluster can move by the amount at stake: the recorded finding c15:rounding-decides-an-exact-tie.
+            # Model/PosModel.v (bases_tie) says whether this forest has such a tie; the attribution needs the model to agree with the engine
+            # on the design-unit run (X ok), so that the tie is one the engine really meets.
+            tie = st == 'X ok' and ' tie=1' in (m or '')
+            key = 'c15:rounding-decides-an-exact-tie' if tie else 'c15:synth:%s' % bad.split(':')[0].split(' ', 2)[-1][:30]
+            chk.violation(key, 'hand-built forest, font vs font = NULL: %s%s' % (bad, ' [the design-unit computation compares equal quantities: rounding of the scaled values decides the branch]' if tie else ''), dict(cases=[c], got=[l[:2500]]))
     chk.notes.append('model leg verdicts: %s' % sorted(mstat.items()))
+    dist.update({'model: ' + k: v for k, v in mstat.items()})
     chk.cov.update(evaluations=len(cases) + sum(len(ls) for _, ls in second) + len(sc), distinct_nontrivial=len(classes), disagreements_checked=ndis, distribution=dist,
                    rule='texts over the shipped fonts (60%% in the font direction, else dir 0..7), each shaped with font = NULL and three unhinted fonts: one ppm from %s, one uniform in (0,4096], one of '
                         '{upem, 2upem, 3upem, upem/2}; %d groups justified to {0.5,1,1.3,2,4} x natural width at every size; structure must be identical, origins/advances/segment advance '
